@@ -41,6 +41,7 @@ from typing import Any, Dict, List, Optional, Sequence, Tuple
 from hypothesis import strategies as st
 
 from ..core import CaseResult, Family, HarnessError, Violation, use_repo
+from ..core import pick as upick
 
 use_repo()
 
@@ -1457,20 +1458,20 @@ PROXY_FRAGS = ['%h', '%p', '%r', '%n', '%%', 'x', '-', ':']
 
 
 def _style(draw, nargs: int = 1, eq: bool = True):
-    cmode = draw(st.sampled_from([0, 0, 0, 1, 2]))
-    sep = draw(st.sampled_from([0, 0, 0, 1, 2, 3, 4, 5, 6])) if eq else 0
-    indent = draw(st.sampled_from([0, 1, 1, 2, 3]))
-    trail = draw(st.sampled_from([0, 0, 0, 1, 2]))
-    qmask = draw(st.sampled_from([0, 0, 0, 1, 2, 3])) if nargs else 0
+    cmode = draw(upick([0, 0, 0, 1, 2]))
+    sep = draw(upick([0, 0, 0, 1, 2, 3, 4, 5, 6])) if eq else 0
+    indent = draw(upick([0, 1, 1, 2, 3]))
+    trail = draw(upick([0, 0, 0, 1, 2]))
+    qmask = draw(upick([0, 0, 0, 1, 2, 3])) if nargs else 0
     return [cmode, sep, indent, trail, qmask]
 
 
 def _patlist(draw, pats, allow_neg=True):
-    n = draw(st.sampled_from([1, 1, 1, 2, 3]))
+    n = draw(upick([1, 1, 1, 2, 3]))
     items = []
 
     for _ in range(n):
-        p = draw(st.sampled_from(pats))
+        p = draw(upick(pats))
 
         if allow_neg and draw(st.integers(0, 4)) == 0:
             p = '!' + p
@@ -1486,11 +1487,11 @@ def _tokval(draw, sshg: bool, lead=('/k/', '~/.ssh/', '/'), rare_bad=False):
     if not sshg:
         frags += ['%d', ' ', '=']
 
-    parts = [draw(st.sampled_from(lead))]
-    parts += draw(st.lists(st.sampled_from(frags), min_size=1, max_size=4))
+    parts = [draw(upick(lead))]
+    parts += draw(st.lists(upick(frags), min_size=1, max_size=4))
 
     if rare_bad and draw(st.integers(0, 40)) == 0:
-        parts.append(draw(st.sampled_from(['%x', '${C18NOPE}', '%k'])))
+        parts.append(draw(upick(['%x', '${C18NOPE}', '%k'])))
 
     val = ''.join(parts).rstrip(' ')
     return val
@@ -1584,10 +1585,10 @@ def _nosplit_value(draw, name: str, sshg: bool, canon_changes: bool) -> str:
     if not sshg and draw(st.integers(0, 9)) == 0:
         return 'none'
 
-    head = draw(st.sampled_from(['echo', 'ssh -W', 'nc', 'sh -c']))
+    head = draw(upick(['echo', 'ssh -W', 'nc', 'sh -c']))
     frags = PROXY_FRAGS if name == 'ProxyCommand' else \
         PROXY_FRAGS + ['%u', '%C', '%L', '%i', '"a  b"', '  ']
-    body = draw(st.lists(st.sampled_from(frags), min_size=1, max_size=4))
+    body = draw(st.lists(upick(frags), min_size=1, max_size=4))
     val = (head + ' ' + ''.join(body)).strip()
 
     if canon_changes:
@@ -1615,22 +1616,22 @@ BAD_LINES = [['Port abc', 'active'], ['Compression maybe', 'active'],
 @st.composite
 def client_case(draw, tier: str, sshg: bool):
     big = tier != 'quick'
-    host = draw(st.sampled_from(HOSTS))
+    host = draw(upick(HOSTS))
     canon = None
 
     if not sshg and draw(st.integers(0, 5)) == 0:
-        canon = draw(st.sampled_from(['foo.example.com', 'db2.internal',
+        canon = draw(upick(['foo.example.com', 'db2.internal',
                                       host]))
 
     canon_changes = canon is not None and canon != host
     target = {'host': host,
-              'user': draw(st.sampled_from([None, None, 'alice', 'carol'])),
-              'port': draw(st.sampled_from([None, None, None, 2022])),
+              'user': draw(upick([None, None, 'alice', 'carol'])),
+              'port': draw(upick([None, None, None, 2022])),
               'canon': canon,
               'lu': 'luser' if not sshg else None}
     pool = SSHG_OPTIONS if sshg else list(CLIENT_KINDS)
     focus_pool = [n for n in M_FOCUS if n in pool]
-    focus = draw(st.lists(st.sampled_from(focus_pool), min_size=2,
+    focus = draw(st.lists(upick(focus_pool), min_size=2,
                           max_size=4, unique=True))
     use_final = draw(st.integers(0, 3)) == 0
     fa_mode = draw(st.booleans()) if sshg else None
@@ -1642,15 +1643,15 @@ def client_case(draw, tier: str, sshg: bool):
 
     def opt_line(name=None):
         if name is None:
-            name = draw(st.sampled_from(focus)) if draw(st.integers(0, 4)) \
-                else draw(st.sampled_from(pool))
+            name = draw(upick(focus)) if draw(st.integers(0, 4)) \
+                else draw(upick(pool))
 
         if CLIENT_KINDS[name] == 'nosplit':
             raw = _nosplit_value(draw, name, sshg, canon_changes)
             style = _style(draw, 0)
 
             if draw(st.integers(0, 3)):
-                style[1] = draw(st.sampled_from([0, 5, 6]))
+                style[1] = draw(upick([0, 5, 6]))
 
             return ['nosplit', name, raw, style]
 
@@ -1684,14 +1685,14 @@ def client_case(draw, tier: str, sshg: bool):
 
         out = []
 
-        for _ in range(draw(st.sampled_from([1, 1, 2, 3]))):
-            crit = draw(st.sampled_from(kinds))
+        for _ in range(draw(upick([1, 1, 2, 3]))):
+            crit = draw(upick(kinds))
             neg = draw(st.integers(0, 3)) == 0
 
             if crit in ('final', 'canonical'):
                 arg = None
             elif crit == 'exec':
-                arg = draw(st.sampled_from(['true', 'false']))
+                arg = draw(upick(['true', 'false']))
             elif crit in ('host', 'originalhost'):
                 arg = _patlist(draw, HOST_PATS)
             elif crit in ('user', 'localuser'):
@@ -1707,9 +1708,9 @@ def client_case(draw, tier: str, sshg: bool):
         if draw(st.booleans()):
             # ssh_config(5): Host patterns are separated by whitespace
             # (commas are for pattern-lists, i.e. Match arguments)
-            n = draw(st.sampled_from([1, 1, 2, 3, 4]))
+            n = draw(upick([1, 1, 2, 3, 4]))
             pats = [('!' if draw(st.integers(0, 4)) == 0 else '') +
-                    draw(st.sampled_from(HOST_PATS)) for _ in range(n)]
+                    draw(upick(HOST_PATS)) for _ in range(n)]
             return ['host', pats, _style(draw, 0, False)]
 
         return ['match', criteria(is_top), _style(draw, 1, False)]
@@ -1717,10 +1718,10 @@ def client_case(draw, tier: str, sshg: bool):
     files: Dict[str, List[Any]] = {}
 
     # leaf and middle files of the include tree
-    t2 = draw(st.lists(st.sampled_from(['h/sub/s1.conf', 'h/sub/s2.conf',
+    t2 = draw(st.lists(upick(['h/sub/s1.conf', 'h/sub/s2.conf',
                                         'a/sub/s1.conf', 'h/sub/s3']),
                        max_size=2, unique=True))
-    t1 = draw(st.lists(st.sampled_from(
+    t1 = draw(st.lists(upick(
         ['h/inc-a.conf', 'h/inc-b', 'h/conf.d/10-x.conf',
          'h/conf.d/20-y.conf', 'h/conf.d/05-z.conf', 'h/conf.d/15-w.conf',
          'a/x1.conf', 'a/x2.conf', 'a/zz']), max_size=4 if big else 3,
@@ -1729,20 +1730,20 @@ def client_case(draw, tier: str, sshg: bool):
     def include_line(candidates: List[str]):
         specs = []
 
-        for _ in range(draw(st.sampled_from([1, 1, 1, 2]))):
+        for _ in range(draw(upick([1, 1, 1, 2]))):
             pick = draw(st.integers(0, 9))
 
             if pick == 0 or not candidates:
-                spec = draw(st.sampled_from([['h', 'missing.conf'],
+                spec = draw(upick([['h', 'missing.conf'],
                                              ['h', 'nodir/*.conf'],
                                              ['a', 'none-*.conf']]))
             else:
-                key = draw(st.sampled_from(candidates))
+                key = draw(upick(candidates))
                 where, rel = key.split('/', 1)
                 dpart, _, name = rel.rpartition('/')
 
                 if draw(st.booleans()):
-                    glob = draw(st.sampled_from(
+                    glob = draw(upick(
                         ['*', '*.conf', name[0] + '*', '?' + name[1:],
                          name[:2] + '*']))
                 else:
@@ -1751,7 +1752,7 @@ def client_case(draw, tier: str, sshg: bool):
                 spec = [where, (dpart + '/' if dpart else '') + glob]
 
             how = 'abs' if spec[0] == 'a' else \
-                draw(st.sampled_from(['rel', 'rel', 'tilde']))
+                draw(upick(['rel', 'rel', 'tilde']))
             specs.append([spec[0], spec[1], how])
 
         return ['include', specs, _style(draw, 0, False)]
@@ -1770,15 +1771,15 @@ def client_case(draw, tier: str, sshg: bool):
             elif pick <= 7 and candidates:
                 lines.append(include_line(candidates))
             elif pick == 8:
-                lines.append(draw(st.sampled_from(
+                lines.append(draw(upick(
                     [['blank'], ['comment', 'Port 1'], ['comment', ''],
                      ['comment', 'Host *']])))
             elif pick == 9:
-                name, arg = draw(st.sampled_from(UNSUPPORTED[:4] if sshg
+                name, arg = draw(upick(UNSUPPORTED[:4] if sshg
                                                  else UNSUPPORTED))
                 lines.append(['unknown', name, [arg], _style(draw, 1)])
             elif pick == 10 and not sshg and draw(st.integers(0, 2)) == 0:
-                text, when = draw(st.sampled_from(BAD_LINES))
+                text, when = draw(upick(BAD_LINES))
                 lines.append(['bad', text, when])
             else:
                 lines.append(opt_line())
@@ -1793,7 +1794,7 @@ def client_case(draw, tier: str, sshg: bool):
 
     if t1 and t2 and draw(st.booleans()):
         # make sure the tree is two deep now and then
-        key = draw(st.sampled_from(t1))
+        key = draw(upick(t1))
         files[key].insert(draw(st.integers(0, len(files[key]))),
                           include_line(t2))
 
@@ -1814,7 +1815,7 @@ def client_case(draw, tier: str, sshg: bool):
     if draw(st.integers(0, 2)) == 0:
         # the conf.d idiom: several files settle the same option, the
         # order in which a glob delivers them decides
-        names = draw(st.lists(st.sampled_from(
+        names = draw(st.lists(upick(
             ['10-x.conf', '20-y.conf', '05-z.conf', '15-w.conf',
              '99-last.conf', 'a.conf']), min_size=2, max_size=4,
             unique=True))
@@ -1823,8 +1824,8 @@ def client_case(draw, tier: str, sshg: bool):
             lines = files.setdefault('h/conf.d/' + name, [])
             lines.insert(0, opt_line(focus[0]))
 
-        glob = draw(st.sampled_from(['*.conf', '*', '*.conf', '??-*.conf']))
-        how = draw(st.sampled_from(['rel', 'rel', 'tilde']))
+        glob = draw(upick(['*.conf', '*', '*.conf', '??-*.conf']))
+        how = draw(upick(['rel', 'rel', 'tilde']))
         files['t/main'].insert(
             draw(st.integers(0, len(files['t/main']))),
             ['include', [['h', 'conf.d/' + glob, how]],
@@ -1877,36 +1878,36 @@ S_FOCUS = ['AuthorizedKeysFile', 'AuthorizedKeysFile', 'PermitTTY',
 @st.composite
 def server_case(draw, tier: str):
     if draw(st.booleans()):
-        user = draw(st.sampled_from(S_USERS))
+        user = draw(upick(S_USERS))
     else:
-        user = ''.join(draw(st.lists(st.sampled_from(S_USER_FRAGS),
+        user = ''.join(draw(st.lists(upick(S_USER_FRAGS),
                                      min_size=1, max_size=4)))
 
-    conn = {'laddr': draw(st.sampled_from(['127.0.0.1', '10.0.0.1', '::1'])),
-            'lport': draw(st.sampled_from([22, 2222, 8022])),
-            'host': draw(st.sampled_from(S_HOSTS)),
-            'addr': draw(st.sampled_from(S_ADDRS))}
+    conn = {'laddr': draw(upick(['127.0.0.1', '10.0.0.1', '::1'])),
+            'lport': draw(upick([22, 2222, 8022])),
+            'host': draw(upick(S_HOSTS)),
+            'addr': draw(upick(S_ADDRS))}
     user_pats = ['*', 'alice', 'bob', 'a*', '.*', '~*', '*/*', '?', 'x*',
                  '*$*']
 
     def opt_line():
-        name = draw(st.sampled_from(S_FOCUS)) if draw(st.integers(0, 3)) \
-            else draw(st.sampled_from(sorted(SERVER_KINDS)))
+        name = draw(upick(S_FOCUS)) if draw(st.integers(0, 3)) \
+            else draw(upick(sorted(SERVER_KINDS)))
         kind = SERVER_KINDS[name]
 
         if name == 'AuthorizedKeysFile':
-            args = draw(st.lists(st.sampled_from(S_TEMPLATES), min_size=1,
+            args = draw(st.lists(upick(S_TEMPLATES), min_size=1,
                                  max_size=2))
             if draw(st.integers(0, 30)) == 0:
                 args = ['@ROOT@/keys/%h']
         elif kind == 'bool':
-            args = [draw(st.sampled_from(BOOLS))]
+            args = [draw(upick(BOOLS))]
         elif kind == 'int':
-            args = [str(draw(st.sampled_from([0, 3, 22, 120])))]
+            args = [str(draw(upick([0, 3, 22, 120])))]
         elif kind == 'af':
-            args = [draw(st.sampled_from(['any', 'inet', 'inet6']))]
+            args = [draw(upick(['any', 'inet', 'inet6']))]
         else:
-            args = [draw(st.sampled_from(['1.2.3.4', '::']))]
+            args = [draw(upick(['1.2.3.4', '::']))]
 
         return ['opt', name, args, _style(draw, len(args))]
 
@@ -1918,8 +1919,8 @@ def server_case(draw, tier: str):
         else:
             crits = []
 
-            for _ in range(draw(st.sampled_from([1, 1, 2]))):
-                crit = draw(st.sampled_from(['user', 'user', 'address',
+            for _ in range(draw(upick([1, 1, 2]))):
+                crit = draw(upick(['user', 'user', 'address',
                                              'host', 'localport',
                                              'localaddress']))
                 neg = draw(st.integers(0, 3)) == 0
@@ -1946,7 +1947,7 @@ def server_case(draw, tier: str):
             if pick <= 2:
                 lines.append(header())
             elif pick == 3 and candidates:
-                key = draw(st.sampled_from(candidates))
+                key = draw(upick(candidates))
                 where, rel = key.split('/', 1)
                 how = 'abs' if where == 'a' else 'rel'
                 if draw(st.booleans()):
@@ -1960,7 +1961,7 @@ def server_case(draw, tier: str):
         return lines
 
     files: Dict[str, List[Any]] = {}
-    incs = draw(st.lists(st.sampled_from(['a/s1.conf', 'a/s2.conf',
+    incs = draw(st.lists(upick(['a/s1.conf', 'a/s2.conf',
                                           'h/s3.conf']), max_size=2,
                          unique=True))
 
@@ -1972,7 +1973,7 @@ def server_case(draw, tier: str):
 
     if draw(st.integers(0, 2)):
         files['t/main'].append(['opt', 'AuthorizedKeysFile',
-                                [draw(st.sampled_from(S_TEMPLATES))],
+                                [draw(upick(S_TEMPLATES))],
                                 _style(draw, 1)])
 
     return {'files': files, 'top': ['t/main'], 'conn': conn, 'user': user}
@@ -2112,12 +2113,12 @@ def run_server_e2e(case) -> CaseResult:
 @st.composite
 def e2e_case(draw, tier: str):
     attacker = draw(st.integers(0, 5)) != 0
-    user = draw(st.sampled_from(E2E_USERS if attacker else
+    user = draw(upick(E2E_USERS if attacker else
                                 ['alice', 'alice', 'mallory']))
-    pre = draw(st.sampled_from([[], ['PermitTTY no'],
+    pre = draw(upick([[], ['PermitTTY no'],
                                 ['Match user *', 'PasswordAuthentication no',
                                  'Match all']]))
-    return {'user': user, 'template': draw(st.sampled_from(E2E_TEMPLATES)),
+    return {'user': user, 'template': draw(upick(E2E_TEMPLATES)),
             'attacker': attacker, 'include': draw(st.booleans()),
             'pre': pre}
 
